@@ -24,4 +24,18 @@ func assumptionsOf(prop string) []string {
 	return a
 }
 
-func extraCoverage(prop string, agg *sim.Summary) map[string]interface{} { return nil }
+func extraCoverage(prop string, agg *sim.Summary) map[string]interface{} {
+	if prop == "C11" {
+		cells := sim.C11Matrix()
+		var names []string
+		for _, c := range cells {
+			names = append(names, c.String())
+		}
+		return map[string]interface{}{
+			"matrix_cells":            len(cells),
+			"matrix_cells_enumerated": names,
+			"matrix_note":             "runs 0..matrix_cells-1 of every batch are the complete call x step x cause matrix (enumerated, exhaustive for that finite matrix); the remaining runs are seeded random combinations",
+		}
+	}
+	return nil
+}
